@@ -466,6 +466,118 @@ def delivered (p : BufPolicy) (gs : List GEx) : List (Option Wire) :=
   let (heap, ids) := sendAll p [] gs
   ids.map (fun i => heap[i]?)
 
+/-! ### Messages: "empty" versus "absent", and the message kind a receiver infers
+
+rpc/rpc.go `RemoteQueryResult` is one struct for four kinds of message (field list, unflat
+row, flat row, end of results); the sender (rpc/rpc_client.go `ProcessRemoteQuery`) fills the
+fields of one kind, the receiver (rpc/server/rpc_server.go `HandleRemoteQueries`, then
+cluster_query.go `queryCluster`) finds out which kind it got by position (`first`),
+`EndOfResults`, and `fields != nil` / `key != nil` / `flatRow != nil`; a message with none of
+these is taken for the partition's final result.  A Go slice / ByteMap / pointer is modelled
+as `Option`: `none` = nil, `some []` = empty but non-nil — msgpack keeps the two apart (nil ↦
+Nil, empty ↦ bin 0 / array 0) unless a struct tag says `omitempty` (then every zero-LENGTH
+value is left off the wire and decodes as the zero value, nil) or `-` (never written). -/
+
+/-- what a `msgpack:"…"` struct tag does to a field -/
+structure FieldTag where
+  omitEmpty : Bool := false
+  skip : Bool := false
+  deriving DecidableEq, Repr, Inhabited
+
+/-- tags of the fields of `RemoteQueryResult` (regenerated: `C20.tagsOfFacts`) -/
+structure RQRTags where
+  fields : FieldTag := {}
+  key : FieldTag := {}
+  vals : FieldTag := {}
+  row : FieldTag := {}
+  stats : FieldTag := {}
+  error : FieldTag := {}
+  endOfResults : FieldTag := {}
+  deriving DecidableEq, Repr, Inhabited
+
+structure MRow where           -- core.FlatRow (exported fields)
+  ts : Int
+  key : Option (List Nat)
+  values : Option (List Rat)
+  deriving DecidableEq, Repr, Inhabited
+
+/-- rpc.RemoteQueryResult; byte strings as `List Nat`, field list by printed form -/
+structure RQR where
+  fields : Option (List String) := none
+  key : Option (List Nat) := none
+  vals : Option (List (Option (List Nat))) := none
+  row : Option MRow := none
+  stats : Option (List Int) := none
+  error : String := ""
+  endOfResults : Bool := false
+  deriving DecidableEq, Repr, Inhabited
+
+/-- msgpack's `isEmptyValue` for slices, maps, strings, pointers: zero length / nil -/
+def emptyOpt {α : Type} : Option (List α) → Bool
+  | none => true
+  | some l => l.isEmpty
+
+/-- one field through the wire: dropped (then it decodes as `zero`) or kept as it is -/
+def throughWire {α : Type} (t : FieldTag) (isEmpty : α → Bool) (zero : α) (v : α) : α :=
+  if t.skip || (t.omitEmpty && isEmpty v) then zero else v
+
+/-- `Unmarshal (Marshal m)` for a RemoteQueryResult under the given struct tags -/
+def RQR.roundTrip (t : RQRTags) (m : RQR) : RQR :=
+  { fields := throughWire t.fields emptyOpt none m.fields
+    key := throughWire t.key emptyOpt none m.key
+    vals := throughWire t.vals emptyOpt none m.vals
+    row := throughWire t.row Option.isNone none m.row
+    stats := throughWire t.stats Option.isNone none m.stats
+    error := throughWire t.error String.isEmpty "" m.error
+    endOfResults := throughWire t.endOfResults (fun b => !b) false m.endOfResults }
+
+inductive MsgKind
+  | fieldList | unflatRow | flatRow | endOfResults
+  | partitionDone     -- queryCluster's "final results for partition": no fields, no key, no flat row
+  deriving DecidableEq, Repr, Inhabited
+
+/-- The kind the LEADER infers from a received message: `HandleRemoteQueries` hands the first
+    message to `onFields`, later ones — unless `EndOfResults` — to `onRow(m.Key, m.Vals)` or
+    `onFlatRow(m.Row)` depending on the query; `queryCluster` then looks at
+    `fields != nil`, `key != nil`, `flatRow != nil` in that order and otherwise counts the
+    partition as finished. -/
+def leaderKind (first unflat : Bool) (m : RQR) : MsgKind :=
+  if first then (if m.fields.isSome then .fieldList else .partitionDone)
+  else if m.endOfResults then .endOfResults
+  else if unflat then (if m.key.isSome then .unflatRow else .partitionDone)
+  else (if m.row.isSome then .flatRow else .partitionDone)
+
+/-- The messages `ProcessRemoteQuery` sends, with the kind the follower means. -/
+inductive Sent
+  | fieldList (fs : List String)                         -- RemoteQueryResult{Fields: fields}
+  | unflatRow (key : List Nat) (vals : Option (List (Option (List Nat))))  -- {Key: key, Vals: vals}
+  | flatRow (row : MRow)                                 -- {Row: row}
+  | endOfResults (stats : Option (List Int)) (error : String)   -- {Stats, EndOfResults: true, Error}
+  deriving DecidableEq, Repr, Inhabited
+
+def Sent.msg : Sent → RQR
+  | .fieldList fs => { fields := some fs }
+  | .unflatRow k v => { key := some k, vals := v }
+  | .flatRow r => { row := some r }
+  | .endOfResults st e => { stats := st, error := e, endOfResults := true }
+
+def Sent.kind : Sent → MsgKind
+  | .fieldList _ => .fieldList
+  | .unflatRow _ _ => .unflatRow
+  | .flatRow _ => .flatRow
+  | .endOfResults _ _ => .endOfResults
+
+/-- position and query flavour under which the follower sends the message -/
+def Sent.first : Sent → Bool
+  | .fieldList _ => true
+  | _ => false
+
+/-- the fields of RemoteQueryResult the receiving code tests, with the way they are tested:
+    `EndOfResults`, `Fields`, `Key`, `Row` decide `leaderKind`; `Error != ""` only sets the
+    error the leader finally reports.  Tied to the source by `C20.kind_tests_match_model`. -/
+def rqrKindFields : List (String × String) :=
+  [("EndOfResults", "bool"), ("Error", "zero"), ("Fields", "nil"), ("Key", "nil"), ("Row", "nil")]
+
 /-! ### Field tables consumed by the `decide` theorems of C20 -/
 
 /-- Unexported (or exported but not restored) fields that a decoder may leave alone, with
